@@ -42,6 +42,12 @@ fn pick_width(rng: &mut Rng) -> u32 {
 }
 
 fn name(rng: &mut Rng, k: usize) -> String {
+    // names that look like the ones the printer invents for unnamed signals (`state_<i>`, `input_<i>`), at their own
+    // index and at others
+    if rng.chance(1, 8) {
+        let i = if rng.flip() { k % 100 } else { (k % 100) + 1 };
+        return format!("{}{i}", rng.pick(&["state_", "input_", "_state_", "state", "input_0"]));
+    }
     let alphabet: Vec<char> = "abcdefghijklmnopqrstuvwxyzABCDEFGHIJKLMNOPQRSTUVWXYZ0123456789_.$[]:/\\-+*=<>!?|&%~^'\"(){},".chars().collect();
     let n = rng.range(1, 12);
     let mut s = String::new();
